@@ -16,7 +16,7 @@ import time
 import vlib
 
 PID = "C13"
-ACTIONS = ["push", "pop", "swap_remove", "swap_remove_idx", "retain", "truncate", "clear", "rename",
+ACTIONS = ["push", "pop", "swap_remove", "swap_remove_idx", "retain", "retain_rename", "truncate", "clear", "rename",
            "extend", "collect", "sort_by"]
 
 
